@@ -141,12 +141,15 @@ def make_model(ms, cache=None):
     ins = [vi(n) for n in ms["ins"]]
     if ms.get("cond"):
         ins.append(h.make_tensor_value_info(ms["cond"], TP.BOOL, []))
+    # overridable defaults: graph inputs that also have an initializer of the same name (listed last)
+    ins += [vi(n) for n, _ in ms.get("defaults", [])]
     g = h.make_graph(
         mk_nodes(ms["nodes"]),
         ms.get("gname", "inner"),
         ins,
         [vi(n) for n in ms["outs"]],
-        [h.make_tensor(n, TP.FLOAT, [2], [float(v) for v in vals]) for n, vals in ms.get("inits", [])],
+        [h.make_tensor(n, TP.FLOAT, [2], [float(v) for v in vals])
+         for n, vals in list(ms.get("inits", [])) + list(ms.get("defaults", []))],
     )
     m = h.make_model(g, opset_imports=[h.make_operatorsetid("", ms.get("opset", 17))], ir_version=8)
     onnx.checker.check_model(m, full_check=True)  # the inlined model itself must be valid ("for any valid m")
@@ -285,9 +288,21 @@ class Realiser:
                 for r in res:
                     env.append((r, "f"))
             elif k == "inline":
-                _, mi, refs = st
+                mi, refs = st[1], st[2]
                 m = self.model(mi)
-                res = spox.inline(m)(*[env[r][0] for r in refs])
+                # st[3] (optional): {default input name: [how, ref]} - the caller overrides an initializer
+                # default with a Var: "ok" well-typed, or ill-typed by "dtype" / "rank" / "dim"
+                kw = {}
+                for name, (how, ref) in (st[3] if len(st) > 3 else {}).items():
+                    v = env[ref][0]
+                    if how == "dtype":
+                        v = op17.cast(v, to=np.int64)
+                    elif how == "rank":
+                        v = op17.reshape(v, op17.constant(value=np.array([1, 2], np.int64)))
+                    elif how == "dim":
+                        v = op17.concat([v, v], axis=0)
+                    kw[name] = v
+                res = spox.inline(m)(*[env[r][0] for r in refs], **kw)
                 for r in res.values():
                     env.append((r, "f"))
             elif k == "custom":
@@ -383,7 +398,7 @@ _ONNX_NP = {"Add": "add", "Sub": "sub", "Mul": "mul", "Neg": "neg", "Abs": "abs"
             "Identity": "identity"}
 
 
-def np_model(spec, ms, ins):
+def np_model(spec, ms, ins, overrides=None):
     if "spec" in ms:
         sub = ms["spec"]
         feeds = {name: v for (name, _), v in zip(sub["inputs"], ins)}
@@ -396,6 +411,8 @@ def np_model(spec, ms, ins):
     for n, vals in ms.get("inits", []):
         if n not in names:
             names[n] = np.array(vals, F32)
+    for n, vals in ms.get("defaults", []):
+        names[n] = (overrides or {}).get(n, np.array(vals, F32))
 
     def run(nodes):
         for nd in nodes:
@@ -452,8 +469,9 @@ class NpEval:
                     states = self.body(body, outer, [np.array(it, np.int64), np.array(True)] + states)
                 env.extend(states)
             elif k == "inline":
-                _, mi, refs = st
-                env.extend(np_model(self.spec, self.spec["models"][mi], [env[r] for r in refs]))
+                mi, refs = st[1], st[2]
+                over = {n: env[ref] for n, (how, ref) in (st[3] if len(st) > 3 else {}).items()}
+                env.extend(np_model(self.spec, self.spec["models"][mi], [env[r] for r in refs], over))
             elif k == "call":
                 fi, refs = st[1], st[2]
                 fs = self.spec["funcs"][fi]
@@ -545,6 +563,7 @@ def live_calls(spec):
                 needed.update(i for i in inner if i < start)
             elif k == "inline":
                 needed.update(st[2])
+                needed.update(ref for _, ref in (st[3] if len(st) > 3 else {}).values())
             elif k == "call":
                 needed.update(st[2])
                 fi = st[1]
@@ -1004,7 +1023,12 @@ class Gen:
                 refs = [self.pick(types, t) for t in want]
                 if any(x is None for x in refs):
                     continue
-                stmts.append(["inline", mi, refs])
+                call = ["inline", mi, refs]
+                if ms.get("defaults") and rng.random() < 0.7:
+                    # override the default with a Var: mostly well-typed, sometimes ill-typed (must be refused)
+                    how = rng.choice(["ok", "ok", "ok", "dtype", "rank", "dim"])
+                    call.append({ms["defaults"][0][0]: [how, self.pick(types, "f")]})
+                stmts.append(call)
                 types.extend(["f"] * nout)
             elif self.feat["func"] and (depth == 0 or self.feat["func_in_body"]):
                 fi = self.gen_func(depth_budget=rng.choice([0, 1, 1, 2]))
@@ -1111,6 +1135,14 @@ class Gen:
         self.funcs[idx] = {"name": f"fn{idx}", "domain": rng.choice(["spox.function", "dom.a", "dom.b"]),
                            "nin": nin, "nout": nout, "body": {"stmts": stmts, "outs": outs}}
         if self.feat.get("collide") and rng.random() < 0.2:
+            # two different functions with the SAME NAME in DIFFERENT domains: both must be defined
+            others = [f for i, f in enumerate(self.funcs) if f is not None and i != idx]
+            if others:
+                o = rng.choice(others)
+                self.funcs[idx]["name"] = o["name"]
+                doms = [d for d in ["spox.function", "dom.a", "dom.b", "dom.c"] if d != o["domain"]]
+                self.funcs[idx]["domain"] = rng.choice(doms)
+        elif self.feat.get("collide") and rng.random() < 0.2:
             # a second Python function registered under an existing (domain, name)
             others = [f for i, f in enumerate(self.funcs) if f is not None and i != idx
                       and f["nin"] == nin and f["nout"] == nout]
@@ -1176,14 +1208,21 @@ class Gen:
         outs = rng.sample(vals[nin:], min(nout, len(vals) - nin))
         if cond and vals[-1] not in outs:
             outs[0] = vals[-1]
-        inits = []
+        inits, defaults = [], []
         if rng.random() < 0.3:
             vals.append("w")
             inits.append(["w", [1.5, -0.5]])
             nodes.append(["Add", "nw", [outs[0], "w"], ["vw"]])
             outs[0] = "vw"
+        if self.feat.get("inline_defaults", True) and rng.random() < 0.35:
+            # an overridable default: a graph input that also has an initializer
+            defaults.append(["dflt", [0.5, 2.0]])
+            nodes.append(["Add", "nd", [outs[0], "dflt"], ["vd"]])
+            outs[0] = "vd"
         ms = {"ins": vals[:nin], "outs": outs, "nodes": nodes, "inits": inits,
               "opset": rng.choice([17, 17, 18, 19, 21]) if self.feat["mixed"] else 17}
+        if defaults:
+            ms["defaults"] = defaults
         if cond:
             ms["cond"] = cond
         self.models.append(ms)
